@@ -21,8 +21,9 @@ import DsdVerif.DriverUnits
 import DsdVerif.DriverSetObjects
 import DsdVerif.DriverComplexS2
 import DsdVerif.DriverReaderFns
+import DsdVerif.DriverSetters
 import DsdVerif.DriverDomain
-import DsdVerif.DriverLegacyReg
+import DsdVerif.DriverLegacyInit
 import DsdVerif.Model.Dlc
 
 namespace Dsd.Driver
@@ -644,10 +645,10 @@ def stepD (d : DState) (line : String) : DState × String :=
       | none => (d, "bad-op")
     else
     match (((DriverKernel.stepKernel line).orElse (fun _ => DriverIdent.stepIdent line)).orElse (fun _ => DriverIdent2.stepIdent2 line)).orElse
-        (fun _ => ((DriverSingleton.stepSingleton line).orElse (fun _ => DriverUnits.stepUnits line)).orElse (fun _ => ((DriverSetObjects.stepSetObjects line).orElse (fun _ => DriverComplexS2.stepComplexS2 line)).orElse (fun _ => DriverReaderFns.stepReaderFns line))) with
+        (fun _ => ((DriverSingleton.stepSingleton line).orElse (fun _ => DriverUnits.stepUnits line)).orElse (fun _ => ((DriverSetObjects.stepSetObjects line).orElse (fun _ => DriverComplexS2.stepComplexS2 line)).orElse (fun _ => (DriverReaderFns.stepReaderFns line).orElse (fun _ => DriverSetters.stepSetters line)))) with
     | some out => (d, out)
     | none =>
-      match DriverLegacyReg.stepLegacyReg d.lr line with
+      match DriverLegacyInit.stepLegacyInit d.lr line with
       | some (lr', out) => ({ d with lr := lr' }, out)
       | none => let (r', out) := stepR d.r line; ({ d with r := r' }, out)
 
